@@ -440,7 +440,12 @@ func (r *transport) handleStaleWhileRevalidate(
 	ccReq internal.CCRequestDirectives,
 	ccResp internal.CCResponseDirectives,
 ) (*http.Response, error) {
-	req2 := req.Clone(req.Context())
+	// The background request outlives this call: it keeps the values of the
+	// caller's context but not its cancellation or deadline (an http.Client with
+	// a Timeout cancels the context as soon as the caller has read the body,
+	// which would abort every revalidation). It is bounded by the
+	// stale-while-revalidate timeout alone.
+	req2 := req.Clone(context.WithoutCancel(req.Context()))
 	// Background revalidation is "best effort"; it is not guaranteed to complete
 	// if the program exits before the goroutine finishes. This design choice was
 	// made to keep the API simple and avoid requiring explicit shutdown coordination.
